@@ -207,18 +207,24 @@ ALL = build()
 BY_NAME = {s.name: s for s in ALL}
 
 
+# what the two ends say to each other after the handshake (a check may
+# replace them before it starts, e.g. by payloads filling several records)
+PING = b"ping-from-client" * 3
+PONG = b"pong-from-server" * 3
+
+
 def script_after_handshake(p, steps=True):
     """short data exchange + orderly close, as two programs (generators)"""
     def client():
-        yield from drive.awrite(p.c, b"ping-from-client" * 3)
-        r = yield from drive.aread(p.c, None, 48)
+        yield from drive.awrite(p.c, PING)
+        r = yield from drive.aread(p.c, None, len(PONG))
         yield from drive.awrite(p.c, b"bye")
         yield from drive.aclose(p.c)
         return r
 
     def server():
-        r = yield from drive.aread(p.s, None, 48)
-        yield from drive.awrite(p.s, b"pong-from-server" * 3)
+        r = yield from drive.aread(p.s, None, len(PING))
+        yield from drive.awrite(p.s, PONG)
         r2 = yield from drive.aread(p.s, None, 3)
         yield from drive.aclose(p.s)
         return (r, r2)
